@@ -7,4 +7,23 @@ def hash_options(lean_str, lean_list):
             "def maxSequenceSizeDefault : Nat := %d" % int(get_option("hash.max_sequence_size"))]
 
 
-SECTIONS = [hash_options]
+def stages(lean_str, lean_list):
+    from dds.structures import ProcessingStage
+    names = [s.name for s in ProcessingStage.all_phases()]
+    values = [s.value for s in ProcessingStage.all_phases()]
+    members = [s.name for s in ProcessingStage]
+    return ["/-- `ProcessingStage.all_phases()`: names, in order -/",
+            "def stageOrder : List String := " + lean_list([lean_str(n) for n in names]),
+            "/-- the enum values, in the same order -/",
+            "def stageValues : List String := " + lean_list([lean_str(n) for n in values]),
+            "/-- all members of the enum -/",
+            "def stageMembers : List String := " + lean_list([lean_str(n) for n in members])]
+
+
+def error_codes(lean_str, lean_list):
+    from dds.structures import DDSErrorCode
+    return ["/-- `DDSErrorCode`: (name, value) -/",
+            "def errorCodes : List (String × Nat) := " + lean_list(["(%s, %d)" % (lean_str(c.name), int(c)) for c in DDSErrorCode])]
+
+
+SECTIONS = [hash_options, stages, error_codes]
